@@ -582,6 +582,13 @@ def oracle_c07(obs: Obs) -> list[Violation]:
         if len(got) != 1:
             v.append(Violation("C07", f"c07:on_stop-count:{len(got)}", f"conn{cid} reached CONNECTED and closed; on_stop called {len(got)} times"))
             continue
+        # the transport of an established session reported EOF / a reset: the session is over at that moment and has
+        # to be reported then, not when somebody happens to disconnect later
+        tr_of = [e["tr"] for e in obs.trace if e["kind"] == "transport_new" and e.get("conn") == cid]
+        lost = next((e for e in obs.trace if e["kind"] in ("eof", "reset") and e["tr"] in tr_of and e["seq"] > connected_seq), None)
+        if lost is not None and obs.trace[closed_seq]["t"] > lost["t"] + 1.0:
+            v.append(Violation("C07", f"c07:session-lost-but-not-reported:{lost['kind']}", f"conn{cid}: {lost['kind']} on the established session at t={lost['t']:.3f}, closed/reported only at t={obs.trace[closed_seq]['t']:.3f}"))
+            continue
         # a peer that fell silent on an established session is a close cause of its own (ping timeout): with nothing
         # arriving any more the session has to be ended and reported within 6.5 keepalive intervals (C10's bound)
         sil = next((e for e in obs.trace if e["kind"] == "fault_armed" and e["what"] == "silence" and e["seq"] > connected_seq), None)
